@@ -83,3 +83,12 @@ add("C07", "fault_enumeration",
     "What the faulty request's own client sees is not asserted (beyond the 502 case). Fault kinds are a finite hand-written table; "
     "timing of faults relative to healthy requests is sampled.",
     "fault injection driven by rapid-generated request/fault streams + exhaustive kind x position grid; history invariant oracle", "3/C07")
+add("C10", "exploration",
+    "Generated request histories (session slots, anonymous and forged ids, hosts, paths, backend Set-Cookie operations incl. deletion, "
+    "path/domain scoping, Secure/HttpOnly, client-supplied extra cookies; cache limit, lifetime and SSL override generated) run against "
+    "the sessions.Cache handler in-process and are compared step by step with one independent net/http/cookiejar per session id; every "
+    "cookie value carries its session tag so a cross-session leak is visible independently of the model; attributes and expiry of the "
+    "issued session cookie are checked. A concurrent part runs 8-32 goroutines over shared/different sessions under -race.",
+    "The cookiejar differential is asserted only while fewer than limit-1 distinct session ids were used (eviction is allowed beyond); "
+    "client cookie values are simple tokens (http.Request.AddCookie sanitises others). Interleavings are sampled, the race detector amplifies.",
+    "stateful property-based testing (rapid): generated request/Set-Cookie histories, differential against net/http/cookiejar + tag isolation; concurrent stress under the race detector", "3/C10")
